@@ -176,6 +176,7 @@ type Producer struct {
 	closeOnce                               sync.Once
 	pending                                 map[util.Uint256]func()
 	names                                   int
+	wl                                      []wlEntry
 	GasH, NeoH, PolH, MgmtH, RoleH, NotaryH util.Uint160
 }
 
@@ -647,7 +648,9 @@ func (p *Producer) opPolicy() *transaction.Transaction {
 	if p.committee() == nil {
 		return nil
 	}
-	switch r.Intn(6) {
+	switch r.Intn(8) {
+	case 6, 7:
+		return p.opWhitelist()
 	case 0:
 		return p.Call("set-fee-per-byte", p.committee(), p.PolH, "setFeePerByte", int64(500+r.Intn(1500)))
 	case 1:
@@ -661,6 +664,55 @@ func (p *Producer) opPolicy() *transaction.Transaction {
 	default:
 		return p.Call("set-register-price", p.committee(), p.NeoH, "setRegisterPrice", int64((500+r.Intn(1000))*1_0000_0000))
 	}
+}
+
+// wlEntry is a (contract, method) pair with a whitelisted fixed fee.
+type wlEntry struct {
+	h      util.Uint160
+	method string
+	argc   int
+}
+
+// opWhitelist sets, changes or removes the fixed execution fee of a contract
+// method (Policy, since Faun; before that the call faults, which is part of
+// the mix). Half of the time an already whitelisted method gets another fee.
+func (p *Producer) opWhitelist() *transaction.Transaction {
+	r := p.R
+	if len(p.wl) > 0 && r.Intn(4) == 0 {
+		i := r.Intn(len(p.wl))
+		e := p.wl[i]
+		tx := p.Call("whitelist-fee-remove", p.committee(), p.PolH, "removeWhitelistFeeContract", e.h, e.method, int64(e.argc))
+		p.pending[tx.Hash()] = func() {
+			for j := range p.wl {
+				if p.wl[j] == e {
+					p.wl = append(p.wl[:j:j], p.wl[j+1:]...)
+					break
+				}
+			}
+		}
+		return tx
+	}
+	var e wlEntry
+	if len(p.wl) > 0 && r.Intn(2) == 0 {
+		e = p.wl[r.Intn(len(p.wl))]
+	} else {
+		cands := []wlEntry{{p.GasH, "transfer", 4}, {p.NeoH, "transfer", 4}, {p.NeoH, "vote", 2}}
+		for _, d := range p.Live {
+			cands = append(cands, wlEntry{d.Hash, "run", 1}, wlEntry{d.Hash, "get", 1})
+		}
+		e = cands[r.Intn(len(cands))]
+	}
+	fee := int64(r.Intn(3)) * int64(1+r.Intn(200_0000))
+	tx := p.Call("whitelist-fee-set", p.committee(), p.PolH, "setWhitelistFeeContract", e.h, e.method, int64(e.argc), fee)
+	p.pending[tx.Hash()] = func() {
+		for _, x := range p.wl {
+			if x == e {
+				return
+			}
+		}
+		p.wl = append(p.wl, e)
+	}
+	return tx
 }
 
 func (p *Producer) opBlock() *transaction.Transaction {
